@@ -101,7 +101,10 @@ func (p *MultilineAction) Do(event *pipeline.Event) pipeline.ActionResult {
 
 	// don't need to unescape/escape log fields cause concatenation of escaped strings is escaped string.
 	// get escaped string because of CRI format.
-	buf.B = event.Root.Dig("log").AppendEscapedString(buf.B)
+	// only a string is a log fragment: for a number or a literal AppendEscapedString gives the bare text without quotes
+	if logNode := event.Root.Dig("log"); logNode.IsString() {
+		buf.B = logNode.AppendEscapedString(buf.B)
+	}
 	logFragment := pipeline.ByteToStringUnsafe(buf.B)
 	if logFragment == "" {
 		p.logger.Fatalf("wrong event format, it doesn't contain log field: %s", event.Root.EncodeToString())
@@ -115,7 +118,8 @@ func (p *MultilineAction) Do(event *pipeline.Event) pipeline.ActionResult {
 	predictedLen := p.eventSize + predictionLookahead
 	shouldSplit := predictedLen > p.config.SplitEventSize
 	logFragmentLen := len(logFragment)
-	isEnd := logFragment[logFragmentLen-3:logFragmentLen-1] == newLine
+	// the fragment is an escaped string with its quotes: `""` (an empty log) is the shortest one
+	isEnd := logFragmentLen >= 2+len(newLine) && logFragment[logFragmentLen-3:logFragmentLen-1] == newLine
 	if !isEnd && !shouldSplit {
 		sizeAfterAppend := len(p.eventBuf) + len(logFragment)
 		// check buffer size before append
